@@ -855,6 +855,23 @@ func (e *Exec) callUninterp(st *State, call *ast.CallExpr, fn *types.Func, recvE
 	r := app(out, name, args...)
 	if f := e.typeFact(r, sig.Results().At(0).Type()); f.S != "true" {
 		e.Ctx.Assume(st.PC, f)
+		// applications on quantifier-bound arguments need the range fact as well: state it once for all arguments
+		if e.boxAx == nil {
+			e.boxAx = map[string]bool{}
+		}
+		if !e.boxAx["range:"+name] && out == SInt {
+			e.boxAx["range:"+name] = true
+			var bs, as []string
+			for i, srt := range sorts {
+				bs = append(bs, fmt.Sprintf("(ua!q%d %s)", i, srt))
+				as = append(as, fmt.Sprintf("ua!q%d", i))
+			}
+			gen := app(out, name)
+			gen = Term{"(" + name + " " + strings.Join(as, " ") + ")", out}
+			gf := e.typeFact(gen, sig.Results().At(0).Type())
+			e.Ctx.Axiom(fmt.Sprintf("(forall (%s) (! %s :pattern (%s)))", strings.Join(bs, " "), gf.S, gen.S))
+			e.Ctx.NeedsQuant = true
+		}
 	}
 	return r
 }
